@@ -5,13 +5,13 @@ use regex::{self, Regex};
 use crate::providers::{ProviderType, FileType};
 
 const DAY_PRECISION_NAME_FORMAT: &str = "%Y.%m.%d";
-const DAY_PRECISION_NAME_REGEX: &str = r"\d{4}\.\d{2}\.\d{2}";
+const DAY_PRECISION_NAME_REGEX: &str = r"[0-9]{4}\.[0-9]{2}\.[0-9]{2}";
 
 const SECOND_PRECISION_NAME_FORMAT: &str = concatcp!(DAY_PRECISION_NAME_FORMAT, "-%H:%M:%S");
-const SECOND_PRECISION_NAME_REGEX: &str = concatcp!(DAY_PRECISION_NAME_REGEX, r"-\d{2}:\d{2}:\d{2}");
+const SECOND_PRECISION_NAME_REGEX: &str = concatcp!(DAY_PRECISION_NAME_REGEX, r"-[0-9]{2}:[0-9]{2}:[0-9]{2}");
 
 #[cfg(test)] const HIGH_PRECISION_NAME_FORMAT: &str = concatcp!(SECOND_PRECISION_NAME_FORMAT, ".%3f");
-#[cfg(test)] const HIGH_PRECISION_NAME_REGEX: &str = concatcp!(SECOND_PRECISION_NAME_REGEX, r"\.\d{3}");
+#[cfg(test)] const HIGH_PRECISION_NAME_REGEX: &str = concatcp!(SECOND_PRECISION_NAME_REGEX, r"\.[0-9]{3}");
 
 #[cfg(not(test))] const GROUP_NAME_FORMAT: &str = DAY_PRECISION_NAME_FORMAT;
 #[cfg(test)] const GROUP_NAME_FORMAT: &str = HIGH_PRECISION_NAME_FORMAT;
